@@ -113,6 +113,8 @@ var invalidSnippets = []string{
 	"var\u0085a = 1;", "x\u0085= 1;", "x = a.b\u00b7c;", "x = a.\u2118;",
 	"(a): b;", "((a)): for (;;) break a;", "x = /[\\\n]/;", "x = /[a\\\r\nb]/g;", "x = /a\\\n/;",
 	"x = /[", "x = /[a", "x = /a[\\", "x = /[^", "f(a,);", "new f(a,);", "f(a,,b);",
+	// 7.9.1: a semicolon is inserted only before an offending token that follows a line break, or before }
+	"do ; while (0) x;", "do x++; while (x < 5) y = 2;", "if (a) do ; while (0) else b;",
 	"x = function (a a) {};", "x = function f(", "x = {", "x = [", "x = (", "debugger x;", "delete;", "typeof;", "void;", "x = new new;", "in x;", "instanceof x;", ", x;", "? x : y;", ": x;", "x = a ?? ;",
 }
 
